@@ -68,6 +68,17 @@ theorem wf_step (d : Doc) (op : Op) (h : WF d) (d' : Doc) (out : Out)
     · rename_i d2 hr; cases hs; exact (wf_deletePages d n h _ hr).1
     · cases hs
   | addContent p c => simp only [step] at hs; exact wf_addPageContents d p c h d' out hs
+  | removeAnnot id =>
+    simp only [step] at hs; have e := Outcome.ok.inj hs
+    have := wf_removeAnnot id (pageIter d.trailer d.objects) d h; rw [e] at this; exact this
+  | addXObject p n x =>
+    simp only [step] at hs; have e := Outcome.ok.inj hs
+    have := wf_addXObject d p n x h; rw [e] at this; exact this
+  | addGState p n x =>
+    simp only [step] at hs; have e := Outcome.ok.inj hs
+    have := wf_addGraphicsState d p n x h; rw [e] at this; exact this
+  | changeStream sid c f => simp only [step] at hs; cases hs; exact wf_changeContentStream _ d sid c h
+  | changePage p c f => simp only [step] at hs; exact wf_changePageContent _ d p c h d' out hs
 
 /-- **C11, invariant over arbitrary programs.** For every finite list of modelled editing calls (any
 operations, any arguments, any length) that runs to completion, well-formedness — in particular
@@ -201,5 +212,171 @@ theorem delete_leaves_trailer_ref_witness (os : Objects) :
   rw [(delete_effect _ _).2.1]
   rw [deepDict, deepObj_other] <;> simp [delAct, delFn, deepDict]
 
+
+
+/-! ### resources and content -/
+
+theorem Dict.get_set (d : Dict) (k : Bytes) (v : Obj) (q : Bytes) :
+    Dict.get (Dict.set d k v) q = if k = q then some v else Dict.get d q := by
+  induction d with
+  | nil => simp [Dict.set, Dict.get]
+  | cons p rest ih =>
+    obtain ⟨k0, v0⟩ := p
+    simp only [Dict.set]
+    by_cases h1 : k0 = k
+    · subst h1; simp only [if_true, Dict.get]
+      by_cases h3 : k0 = q <;> simp [h3]
+    · simp only [h1, if_false, Dict.get, ih]
+      by_cases h3 : k0 = q
+      · subst h3; simp [Ne.symm h1]
+      · simp [h3]
+
+theorem readLoc_writeLoc (os : Objects) (loc : ResLoc) (o v : Obj) (h : readLoc os loc = some o) :
+    readLoc (writeLoc os loc v) loc = some v := by
+  cases loc with
+  | obj id =>
+    simp only [readLoc, writeLoc, Objects.get_set] at *
+    simp [h]
+  | entry t =>
+    simp only [readLoc] at h
+    split at h
+    · rename_i pd hg
+      simp only [writeLoc, hg, readLoc, Objects.get_set]
+      simp [Dict.get_set]
+    · cases h
+
+/-- adding `name ↦ v` to the sub-dictionary `sub` of category `cat`: every other category and every other
+name of that category is exactly as before -/
+theorem withEntry_monotone (res sub : Dict) (cat name : Bytes) (v : Obj) :
+    (∀ c, c ≠ cat → Dict.get (Dict.set res cat (.dict (Dict.set sub name v))) c = Dict.get res c) ∧
+    Dict.get (Dict.set res cat (.dict (Dict.set sub name v))) cat = some (.dict (Dict.set sub name v)) ∧
+    (∀ n, n ≠ name → Dict.get (Dict.set sub name v) n = Dict.get sub n) ∧
+    Dict.get (Dict.set sub name v) name = some v := by
+  refine ⟨?_, by simp [Dict.get_set], ?_, by simp [Dict.get_set]⟩
+  · intro c hc; simp [Dict.get_set, Ne.symm hc]
+  · intro n hn; simp [Dict.get_set, Ne.symm hn]
+
+/-- **C11, resources_monotone (partial: the resource dictionary the call works on).** If
+`get_or_create_resources` locates a resource dictionary `res` for the page, then after
+`add_graphics_state` the dictionary at that location keeps every category other than `ExtGState`
+unchanged, and an existing `ExtGState` sub-dictionary keeps every name other than the new one. -/
+theorem addGraphicsState_monotone_partial (d : Doc) (pg : ObjId) (name : Bytes) (gid : ObjId) (d1 : Doc) (loc : ResLoc)
+    (res : Dict) (hg : getOrCreateResources d pg = some (d1, loc)) (hr : readLoc d1.objects loc = some (.dict res)) :
+    ∃ res', readLoc (addGraphicsState d pg name gid).1.objects loc = some (.dict res') ∧
+      (∀ c, c ≠ kExtGState → Dict.get res' c = Dict.get res c) ∧
+      (∀ sd, Dict.get res kExtGState = some (.dict sd) →
+        ∃ sd', Dict.get res' kExtGState = some (.dict sd') ∧ ∀ n, n ≠ name → Dict.get sd' n = Dict.get sd n) := by
+  unfold addGraphicsState
+  simp only [hg, hr]
+  by_cases hh : Dict.has res kExtGState = true
+  · simp only [hh, if_true]
+    cases hge : Dict.get res kExtGState with
+    | none => simp [Dict.has, hge] at hh
+    | some v =>
+      cases v with
+      | dict sd =>
+        simp only
+        refine ⟨_, readLoc_writeLoc _ _ _ _ hr, ?_, ?_⟩
+        · exact (withEntry_monotone res sd kExtGState name _).1
+        · intro sd0 h0; cases h0
+          exact ⟨_, (withEntry_monotone res sd kExtGState name _).2.1, (withEntry_monotone res sd kExtGState name _).2.2.1⟩
+      | _ => exact ⟨res, hr, fun _ _ => rfl, fun sd h0 => by cases h0⟩
+  · have hh' : Dict.has res kExtGState = false := by simpa using hh
+    have hnone : Dict.get res kExtGState = none := by
+      simp only [Dict.has] at hh'; cases hx : Dict.get res kExtGState <;> simp_all
+    simp only [hh', Bool.false_eq_true, if_false, Dict.get_set, if_true]
+    refine ⟨_, readLoc_writeLoc _ _ _ _ hr, ?_, ?_⟩
+    · intro c hc
+      rw [(withEntry_monotone _ [] kExtGState name _).1 c hc, Dict.get_set]; simp [Ne.symm hc]
+    · intro sd h0; rw [hnone] at h0; cases h0
+
+/-- the same for `add_xobject` when the `XObject` entry is a direct dictionary or absent (when it is a
+reference the sub-dictionary lives in another object and `res` itself is not written) -/
+theorem addXObject_monotone_partial (d : Doc) (pg : ObjId) (name : Bytes) (xid : ObjId) (d1 : Doc) (loc : ResLoc)
+    (res : Dict) (hg : getOrCreateResources d pg = some (d1, loc)) (hr : readLoc d1.objects loc = some (.dict res))
+    (hnr : ∀ n g, Dict.get res kXObject ≠ some (.ref n g)) :
+    ∃ res', readLoc (addXObject d pg name xid).1.objects loc = some (.dict res') ∧
+      (∀ c, c ≠ kXObject → Dict.get res' c = Dict.get res c) ∧
+      (∀ sd, Dict.get res kXObject = some (.dict sd) →
+        ∃ sd', Dict.get res' kXObject = some (.dict sd') ∧ ∀ n, n ≠ name → Dict.get sd' n = Dict.get sd n) := by
+  unfold addXObject
+  simp only [hg, hr]
+  by_cases hh : Dict.has res kXObject = true
+  · simp only [hh, if_true]
+    cases hge : Dict.get res kXObject with
+    | none => simp [Dict.has, hge] at hh
+    | some v =>
+      cases v with
+      | dict sd =>
+        simp only
+        refine ⟨_, readLoc_writeLoc _ _ _ _ hr, ?_, ?_⟩
+        · exact (withEntry_monotone res sd kXObject name _).1
+        · intro sd0 h0; cases h0
+          exact ⟨_, (withEntry_monotone res sd kXObject name _).2.1, (withEntry_monotone res sd kXObject name _).2.2.1⟩
+      | ref n g => exact absurd hge (hnr n g)
+      | _ => exact ⟨res, hr, fun _ _ => rfl, fun sd h0 => by cases h0⟩
+  · have hh' : Dict.has res kXObject = false := by simpa using hh
+    have hnone : Dict.get res kXObject = none := by
+      simp only [Dict.has] at hh'; cases hx : Dict.get res kXObject <;> simp_all
+    simp only [hh', Bool.false_eq_true, if_false, Dict.get_set, if_true]
+    refine ⟨_, readLoc_writeLoc _ _ _ _ hr, ?_, ?_⟩
+    · intro c hc
+      rw [(withEntry_monotone _ [] kXObject name _).1 c hc, Dict.get_set]; simp [Ne.symm hc]
+    · intro sd h0; rw [hnone] at h0; cases h0
+
+/-- **F-C11-e (counter-witness).** Page 2 has no own `Resources` and inherits `/Font /F1` from its parent 3.
+`add_xobject` gives the page an own `Resources` whose only key is `XObject`: the dictionary in effect for
+the page (the nearest one up the Parent chain) no longer contains `Font`. -/
+def wres : Doc :=
+  { trailer := [], maxId := 5, bookmarks := [], bmTable := [],
+    objects := [((2,0), .dict [(TYPE, .name PAGE), (PARENT, .ref 3 0)]),
+                ((3,0), .dict [(TYPE, .name PAGES), (KIDS, .arr [.ref 2 0]),
+                               (kResources, .dict [([70,111,110,116], .dict [([70,49], .ref 5 0)])])]),
+                ((5,0), .dict [])] }
+
+theorem inherited_shadowed_witness :
+    ((wres.objects.get (2,0)).bind Obj.asDict).bind (fun pd => Dict.get pd kResources) = none ∧
+    ((((addXObject wres (2,0) [73,109,49] (5,0)).1.objects.get (2,0)).bind Obj.asDict).bind
+        (fun pd => (Dict.get pd kResources).bind Obj.asDict)).map Dict.keys = some [kXObject] := by
+  constructor <;> decide
+
+/-- decoding of a stream as `get_page_content` needs it here: no filter, or FlateDecode through the codec -/
+def decodeStream (inflate : Bytes → Option Bytes) : Obj → Option Bytes
+  | .stream dict content =>
+    match Dict.get dict kFilter with
+    | none => some content
+    | some (.name n) => if n = kFlateDecode then inflate content else none
+    | some _ => none
+  | _ => none
+
+/-- **C11, content edits.** With a codec satisfying `inflate (deflate x) = x`, the stream that
+`change_content_stream` stores (plain, or FlateDecode when that saves more than the margin) decodes to the
+new content, and its `Length` is the stored length. `hplain` is the one fact about the dictionary that is
+used: after `set_plain_content` no `Filter` key is left (true of every `IndexMap`, i.e. duplicate-free, dictionary). -/
+theorem change_content_decodes (inflate : Bytes → Option Bytes) (deflate : Bytes → Bytes)
+    (hcodec : ∀ x, inflate (deflate x) = some x) (dict : Dict) (c : Bytes)
+    (hplain : Dict.get (Dict.remove (Dict.remove dict kDecodeParms) kFilter) kFilter = none) :
+    decodeStream inflate (plainThenCompress (deflate c) dict c) = some c := by
+  unfold plainThenCompress
+  simp only
+  split
+  · simp only [decodeStream, Dict.get_set]
+    have h1 : ¬ (LENGTHE = kFilter) := by decide
+    simp [h1, hcodec]
+  · simp only [decodeStream, Dict.get_set]
+    have h1 : ¬ (LENGTHE = kFilter) := by decide
+    simp [h1, hplain]
+
+theorem change_content_length (deflated : Bytes) (dict : Dict) (c : Bytes) :
+    ∃ d' content', plainThenCompress deflated dict c = .stream d' content' ∧
+      Dict.get d' LENGTHE = some (.int content'.length) := by
+  unfold plainThenCompress
+  simp only
+  split
+  · exact ⟨_, _, rfl, by simp [Dict.get_set]⟩
+  · exact ⟨_, _, rfl, by simp [Dict.get_set]⟩
+
+example : Dict.get (Dict.remove (Dict.remove [(kFilter, .name [65]), (LENGTHE, .int 3), (kDecodeParms, .null)] kDecodeParms) kFilter) kFilter = none := by
+  decide
 
 end Lopdf
